@@ -439,3 +439,51 @@ def arg_binding(ctx):
     name while the callee has a parameter of the variable's own name elsewhere (argument inserted / dropped / swapped)."""
     from .common_argsel import arg_binding as run
     run(ctx, ['services.services', 'services.baseclient'], 'a provider query is made with shifted arguments')
+
+
+@PROP.obligation('C20.abort-keeps-answers', canaries=[
+    mut.replace_stmt('services.services', 'Service._provider_execute', 'if len(self.results)', 'return False', 'answers already collected are discarded when the error limit is reached'),
+])
+def abort_keeps_answers(ctx):
+    """Service._provider_execute, error-limit abort (len(self.errors) >= max_errors, reachable with max_providers >= 2 after a provider
+    already answered): an answer that was collected is returned; False is returned only when there is none."""
+    q = 'services.services:Service._provider_execute'
+    fn = ctx.repo.func(q)
+    lim = [n for n in ast.walk(fn) if isinstance(n, ast.If) and 'len(self.errors)' in norm(n.test) and 'self.max_errors' in norm(n.test)]
+    if len(lim) != 1:
+        ctx.undecided('_provider_execute: error-limit block not found')
+    inner = [s_ for s_ in lim[0].body if isinstance(s_, ast.If) and 'self.results' in norm(s_.test)]
+    rets = [s_ for s_ in lim[0].body if isinstance(s_, ast.Return)]
+    ctx.saw('error-limit block: nested test %s, direct returns %s' % ([norm(i.test) for i in inner], [norm(r) for r in rets]))
+    if rets and not inner:
+        ctx.violate(q, 'when the error limit is reached `%s` is executed without looking at the answers collected so far' % norm(rets[0]), rets[0],
+                    'with max_providers >= 2 a query (or a broadcast) that one provider already answered is reported as failed')
+        return
+    if not inner:
+        ctx.unsure('%s: abort path not recognised' % q)
+        return
+    good = [r for r in ast.walk(inner[0]) if isinstance(r, ast.Return) and r in inner[0].body and 'self.results' in norm(r)]
+    ctx.require(bool(good), q, 'the error-limit abort does not return the collected answer', inner[0])
+
+
+@PROP.obligation('C20.cache-after-txid', canaries=[
+    mut.replace_expr('services.services', 'Cache.gettransactions', 'DbCacheTransaction.block_height >= after_tx.block_height', 'DbCacheTransaction.block_height > after_tx.block_height', 'transactions later in the block of after_txid skipped'),
+])
+def cache_after_txid(ctx):
+    """Cache.gettransactions(after_txid): the cached history is continued from the BLOCK of after_txid inclusive (block_height >=), and the
+    loop then drops everything up to and including after_txid itself - transactions of the address later in that same block belong to
+    the answer."""
+    q = 'services.services:Cache.gettransactions'
+    fn = ctx.repo.func(q)
+    cmps = [c for c in ast.walk(fn) if isinstance(c, ast.Compare) and norm(c.left) == 'DbCacheTransaction.block_height' and 'after_tx.block_height' in norm(c)]
+    if len(cmps) != 1:
+        ctx.undecided('Cache.gettransactions: lower bound on the block height not found')
+    op = type(cmps[0].ops[0]).__name__
+    ctx.saw('lower bound: %s' % norm(cmps[0]))
+    if op == 'Gt':
+        ctx.violate(q, 'the history is continued with blocks strictly AFTER the block of after_txid (`%s`)' % norm(cmps[0]), cmps[0],
+                    'transactions of the address that follow after_txid in the same block are missing from the continued history')
+    elif op != 'GtE':
+        ctx.unsure('%s: lower bound `%s` not recognised' % (q, norm(cmps[0])))
+    drop = [n for n in ast.walk(fn) if isinstance(n, ast.If) and norm(n.test) == 'd.txid == after_txid']
+    ctx.require(bool(drop), q, 'the entries up to and including after_txid are no longer dropped', fn)
